@@ -159,8 +159,8 @@ def expected_end(template, s, e):
     # fields given for the end must be contiguous from lead down to the start's finest
     idx = RESOLUTION_ORDER.index(lead)
     fin_idx = RESOLUTION_ORDER.index(fin)
-    wanted = set(RESOLUTION_ORDER[idx:fin_idx + 1])
-    if enames != wanted:
+    # ... or stop above it: "takes the missing fields from the start" holds for the finer ones as well
+    if not any(enames == set(RESOLUTION_ORDER[idx:j + 1]) for j in range(idx, fin_idx + 1)):
         return None
     # compose: coarse fields from the start, fine ones from e
     kw = {}
